@@ -1232,7 +1232,9 @@ class X:
             if h is not None:
                 return h(self, st, e, env, it, kind)
             raise Unsupported('comprehension over %s' % type(it).__name__)
-        out_l, out_d = [], {}
+        out_l, out_d, guards, symbolic = [], {}, [], False
+        if getattr(it, 'guards', None):
+            raise Unsupported('comprehension over a guarded list')
         for item in it.items:
             env2 = dict(env)
             self.assign(g.target, item, env2, st)
@@ -1240,12 +1242,23 @@ class X:
             if any(z3.is_false(c) for c in conds):
                 continue
             if not all(z3.is_true(c) for c in conds):
-                raise Unsupported('symbolic comprehension filter')
+                if kind != 'list':
+                    raise Unsupported('symbolic comprehension filter')
+                guards.append(z3.And(conds))
+                out_l.append(self.ev(e.elt, env2, st))
+                symbolic = True
+                continue
+            guards.append(TRUE)
             if kind == 'dict':
                 out_d[self._constkey(self.ev(e.key, env2, st))] = self.ev(e.value, env2, st)
             else:
                 out_l.append(self.ev(e.elt, env2, st))
-        return D(out_d) if kind == 'dict' else T(out_l, 'list')
+        if kind == 'dict':
+            return D(out_d)
+        r = T(out_l, 'list')
+        if symbolic:
+            r.guards = guards       # element k is present iff guards[k]
+        return r
 
     # ---------------------------------------------------------------- statements
     def assign(self, tgt, val, env, st):
@@ -1604,9 +1617,15 @@ class X:
         if isinstance(it, T):
             if len(it.items) > self.max_unroll * 4:
                 raise Unsupported('loop too long to unroll')
-            for item in it.items:
+            gs = getattr(it, 'guards', None)
+            outer = st.live
+            for k, item in enumerate(it.items):
+                if gs:
+                    st.live = z3.simplify(z3.And(outer, gs[k]))
                 self.assign(s.target, item, env, st)
                 self._loop_body(s.body, env, st)
+            if gs:
+                st.live = z3.simplify(z3.And(outer, z3.Not(st.raised())))
             return
         if hasattr(it, 'acc_loop'):
             return it.acc_loop(self, st, s, env)
